@@ -61,6 +61,17 @@ def loadPrior (s : LoadSt) (id : Nat) : Nat × LoadSt :=
   | some k => (k, s)
   | none => (s.next, { loaded := s.loaded ++ [(id, s.next)], next := s.next + 1 })
 
+/-- are both operands one and the same prior object? -/
+def samePrior {V} : Node V → Node V → Bool
+  | .prior a, .prior b => a == b
+  | _, _ => false
+
+/-- the public attributes of an arithmetic prior rebuilt by its constructor: `retrieve_name` finds
+the constructor's own parameter names; when both operands are the same prior object it finds
+`right` for both, and the single attribute `right_` remains -/
+def operandAttrs {V} (l r : Node V) : List (String × Node V) :=
+  if samePrior l r then [("right_", r)] else [("left_", l), ("right_", r)]
+
 mutual
 /-- `from_dict` -/
 def fromDict {V} : DJ V → LoadSt → Node V × LoadSt
@@ -73,7 +84,7 @@ def fromDict {V} : DJ V → LoadSt → Node V × LoadSt
   | .compound op l r, s =>
       let (l', s₁) := fromDict l s
       let (r', s₂) := fromDict r s₁
-      (.arith op [("left_", l'), ("right_", r')] l' r', s₂)
+      (.arith op (operandAttrs l' r') l' r', s₂)
   | .modified op name x, s => let (x', s') := fromDict x s; (.modif op [(name, x')] x', s')
   | .array shape args, s => let (a, s') := fromDictAttrs args s; (.array shape a, s')
 def fromDictAttrs {V} : List (String × DJ V) → LoadSt → List (String × Node V) × LoadSt
@@ -93,12 +104,31 @@ def canonNames {V} : Node V → Node V
   | .model cls ctor attrs => .model cls ctor (canonNamesAttrs attrs)
   | .coll attrs => .coll (canonNamesAttrs attrs)
   | .tuple attrs => .tuple (canonNamesAttrs attrs)
-  | .arith op _ l r => .arith op [("left_", canonNames l), ("right_", canonNames r)] (canonNames l) (canonNames r)
+  | .arith op _ l r => .arith op (operandAttrs (canonNames l) (canonNames r)) (canonNames l) (canonNames r)
   | .modif op attrs x => .modif op [((attrs.head?.map (·.1)).getD "prior_", canonNames x)] (canonNames x)
   | .array shape attrs => .array shape (canonNamesAttrs attrs)
 def canonNamesAttrs {V} : List (String × Node V) → List (String × Node V)
   | [] => []
   | (k, n) :: rest => (k, canonNames n) :: canonNamesAttrs rest
+end
+
+/- the same for database rows: a modified prior is rebuilt by its constructor without a name,
+   which `retrieve_name` resolves to the constructor's parameter `prior` (attribute `prior_`) -/
+mutual
+def canonNamesDb {V} : Node V → Node V
+  | .prior id => .prior id
+  | .const v => .const v
+  | .opaque t => .opaque t
+  | .model cls ctor attrs => .model cls ctor (canonNamesDbAttrs attrs)
+  | .coll attrs => .coll (canonNamesDbAttrs attrs)
+  | .tuple attrs => .tuple (canonNamesDbAttrs attrs)
+  -- the two operands are stored as separate rows and come back as separate (equal) objects
+  | .arith op _ l r => .arith op [("left_", canonNamesDb l), ("right_", canonNamesDb r)] (canonNamesDb l) (canonNamesDb r)
+  | .modif op _ x => .modif op [("prior_", canonNamesDb x)] (canonNamesDb x)
+  | .array shape attrs => .array shape (canonNamesDbAttrs attrs)
+def canonNamesDbAttrs {V} : List (String × Node V) → List (String × Node V)
+  | [] => []
+  | (k, n) :: rest => (k, canonNamesDb n) :: canonNamesDbAttrs rest
 end
 
 /-- the full round trip -/
